@@ -7,7 +7,8 @@
      rest : [0] when read_meta_data raises, else
             1 :: enc(dict) ++ enc_str(write text) ++ [re-read equal?]
               ++ version ++ type ++ nchannels ++ sync ++ fs ++ ns ++ maxint ++ sample2volts-selector
-              ++ major version ++ analog sync (count, first index when count > 0) *)
+              ++ major version ++ analog sync (count, first index when count > 0)
+              ++ max int with neuropixel_version='3A' ++ max int with neuropixel_version='NP2.4' *)
 From Coq Require Import ZArith List Bool.
 From IBL.lib Require Import PyInt RunLib.
 From IBL.C09 Require Import Model.
@@ -56,7 +57,8 @@ Definition enc_derived (d : dict) : list Z :=
   ++ match sample2volts d with
      | None => [0] | Some (_, _, l) => [1; Z.of_nat (length l)] end
   ++ enc_option (fun m => [match m with MJ1 => 1 | MJ2 => 2 | MJ24 => 3 | MJultra => 4 end]) (major_version d)
-  ++ enc_option (fun p => [snd p; if 0 <? snd p then fst p else 0]) (analog_sync d).
+  ++ enc_option (fun p => [snd p; if 0 <? snd p then fst p else 0]) (analog_sync d)
+  ++ enc_zopt (max_int_with (Some V3A) d) ++ enc_zopt (max_int_with (Some VNP24) d).
 
 Definition run (inp : list Z) : list Z :=
   match read_meta inp with
